@@ -18,9 +18,9 @@ use syn::visit_mut::VisitMut;
 pub const META: PropMeta = PropMeta {
     id: "C07",
     level: "exploration",
-    rule: "cases = (registry after ensure_unique_type_paths, 1..4 substitution rules over generated and prelude paths present in it): rule forms = no generics (pass-through) / same generics / permuted / repeated / nested (::a::B<::c::D<T>, T>, and beneath tuples, arrays and references inside a path argument) / fixed extra arguments / fewer / more target parameters / source generics with a generic-free target and vice versa; use sites at every depth (fields, variants, Vec/array/tuple/Option elements, arguments of other generics, compact inner, Box); rule parameters are named A,B,C / T,U,V or, in 3 of 5 rule sets, like the generator's own parameters (_0,_1,_2 in and out of order), so that a resolved argument can equal the name of another source parameter (simultaneous, not sequential, replacement). Oracle (differential + spec): generate WITHOUT the rules, apply the specification rewrite (syn-level: every occurrence of a source path, at any depth, becomes the target with each source parameter name replaced at any depth by the corresponding rewritten argument; pass-through keeps the arguments in order; all other tokens unchanged) to every field type and to resolve_type_path(id) of every id, and compare with the generation WITH the rules, item by item and field by field (PhantomData markers excluded: a rule that drops an argument legitimately changes which parameters are unused); items of substituted paths must be absent; no path root::<source> may survive anywhere. Sources with skipped parameters are excluded from rules with declared generics and counted. non-trivial = at least one occurrence rewritten with a rule that declares generics; distinct by hash of registry+rules.",
+    rule: "cases = (registry after ensure_unique_type_paths, 1..4 substitution rules over generated and prelude paths present in it): rule forms = no generics (pass-through) / same generics / permuted / repeated / nested (::a::B<::c::D<T>, T>, and beneath tuples, arrays and references inside a path argument) / fixed extra arguments / fewer / more target parameters / source generics with a generic-free target and vice versa; use sites at every depth (fields, variants, Vec/array/tuple/Option elements, arguments of other generics, compact inner, Box); rule parameters are named A,B,C / T,U,V or, in 3 of 5 rule sets, like the generator's own parameters (_0,_1,_2 in and out of order), so that a resolved argument can equal the name of another source parameter (simultaneous, not sequential, replacement). Oracle (differential + spec): generate WITHOUT the rules, apply the specification rewrite (syn-level: every occurrence of a source path, at any depth, becomes the target with each source parameter name replaced at any depth by the corresponding rewritten argument; pass-through keeps the arguments in order; all other tokens unchanged) to every field type and to resolve_type_path(id) of every id, and compare with the generation WITH the rules, item by item and field by field (PhantomData markers excluded: a rule that drops an argument legitimately changes which parameters are unused); items of substituted paths must be absent; no path root::<source> may survive anywhere. Sources with skipped parameters are excluded from rules with declared generics and counted. non-trivial = at least one occurrence rewritten with a rule that declares generics; distinct by hash of registry+rules. The rules reach the settings by one of five histories chosen from the rule set: one insert per rule / ONE extend / insert_if_not_exists / the longest source path by insert and then one extend with the others / inserts followed by an empty extend.",
     assumptions: &["'corresponding argument' = i-th declared source parameter <-> i-th resolved argument, for sources without skipped parameters"],
-    required_counters: &["occurrences_rewritten", "registered_via[extend]", "rule_sets_with_generated_style_param_names", "rules[pass-through]", "rules[permuted]", "rules[nested]", "rules[repeated]", "rules[fewer]", "rules[more]", "rules[nested-non-type-args]", "rules[declares-fewer-than-recorded]", "rules[declares-more-than-recorded]", "hook[rtp:substituted]", "type_paths_compared", "fields_compared"],
+    required_counters: &["occurrences_rewritten", "registered_via[extend]", "registered_via[insert+extend]", "registered_via[insert+empty-extend]", "rule_sets_with_generated_style_param_names", "rules[pass-through]", "rules[permuted]", "rules[nested]", "rules[repeated]", "rules[fewer]", "rules[more]", "rules[nested-non-type-args]", "rules[declares-fewer-than-recorded]", "rules[declares-more-than-recorded]", "hook[rtp:substituted]", "type_paths_compared", "fields_compared"],
     floor: (300, 5000),
     shards: (16, 16),
 };
